@@ -390,7 +390,12 @@ func (s *Rtmp2MpegtsRemuxer) feedVideo(msg base.RtmpMsg) {
 }
 
 func (s *Rtmp2MpegtsRemuxer) feedAudio(msg base.RtmpMsg) {
-	if len(msg.Payload) <= 2 {
+	// aac messages carry two header bytes (sound format, packet type) in front of the frame, all other formats one
+	audioHeaderLen := 1
+	if msg.AudioCodecId() == base.RtmpSoundFormatAac {
+		audioHeaderLen = 2
+	}
+	if len(msg.Payload) <= audioHeaderLen {
 		Log.Warnf("[%s] rtmp msg too short, ignore. header=%+v, payload=%s", s.uk, msg.Header, hex.Dump(msg.Payload))
 		return
 	}
